@@ -202,8 +202,9 @@ def run(ctx):
         reqs.append((f"example {name} {nv.enc_ints(args)}", posted_dump(prob), name, args))
         if val is None:
             continue  # constructor comparison only
-        for cons in (0, 1):
-            for (vh, dh) in ((0, 0), (1, 3)) if not thorough else ((0, 0), (1, 3), (2, 1), (1, 2)):
+        heavy = name in ("quasigroup", "quasigroup5") and args[0] >= 5
+        for cons in ((0,) if heavy and not thorough else (0, 1)):
+            for (vh, dh) in (((0, 0),) if heavy else ((0, 0), (1, 3))) if not thorough else ((0, 0), (1, 3), (2, 1), (1, 2)):
                 cases.append(({"op": "solve", "problem": prob.to_json(), "cfg": ce.cfg_json(nv.Cfg(cons=cons, varh=vh, domh=dh))}, name, args, val, exp))
     for extra_name, extra_args, extra_p in (("alpha", [], AlphaProblem()), ("donald", [], DonaldProblem()),
                                              ("knapsack", [3, 4, 5, 6, 3, 2, 4, 6], KnapsackProblem([4, 5, 6], [3, 2, 4], 6)),
@@ -249,7 +250,11 @@ def run(ctx):
         report.count("model_compared", name)
         if impl != ans:
             corr.append({"op": "example", "model": name, "args": args, "implementation": impl[:300], "lean": ans[:300]})
+    # generous per-call limit: these are whole enumerations in interpreted mode; a loaded machine must not turn into an alarm
+    import os
+    os.environ["NUCS_VERIF_CALL_TIMEOUT"] = "280"
     res = ce.run_impl([c for c, *_ in cases], jit=False, tag="C20", case_timeout=300)
+    os.environ["NUCS_VERIF_CALL_TIMEOUT"] = "15"
     ans = nv.Model().ask(ce.model_lines([c for c, *_ in cases if oracle.box_size(nv.Prob.from_json(c["problem"]).shr) <= 10 ** 9][:0]))  # whole-run model comparison is C01/C02's job
     counts = {}
     for (c, name, args, val, exp), r in zip(cases, res):
